@@ -136,7 +136,7 @@ pub fn app_header_output() {
     }
 }
 
-//# harness: name=c07_app_header_output_utf8 prop=C07 tier=thorough unwind=50 timeout=1800 stubs=fmt
+//# harness: name=c07_app_header_output_utf8 prop=C07 tier=manual unwind=50 timeout=1800 stubs=fmt
 //# functions: headers::ApplicationHeader::parse (output direction, non-ASCII)
 //# bound: 'O' + 47 bytes of which a symbolic window of 4 bytes is arbitrary UTF-8 and the rest 'A', unwind 50
 pub fn app_header_output_utf8() {
